@@ -6,7 +6,8 @@
    NOT proved here (searched numerically only): identities between different closed forms
    (Cuboid = mesh = tetrahedra, Cylinder = sum of segments, Polyline -> Circle). *)
 From Coq Require Import ZArith Reals List Bool.
-From MV Require Import Lib.Rigid Lib.OctZ Model.ReprModel Model.ReprExec Proofs.ReprProofs Proofs.ReprExecProofs.
+From MV Require Import Lib.Rigid Lib.OctZ Gen.GenCuboid Model.ReprModel Model.ReprExec Proofs.ReprProofs Proofs.ReprExecProofs
+  Proofs.ReprCuboid Proofs.ReprUnique.
 Import ListNotations.
 
 (* ---- Sphere (outside) = Dipole with moment M*V = (J/mu0) * pi d^3/6 : all four fields, every observer with
@@ -98,6 +99,26 @@ Theorem C13_mesh_vertices_complete :
 Proof. exact (@mesh_vertices_complete). Qed.
 Print Assumptions C13_mesh_vertices_complete.
 
+(* the vertex list is strictly sorted in the row order and duplicate-free (np.unique), for every strict total
+   order given as a boolean test; numpy's lexicographic order on integer rows is one *)
+Theorem C13_mesh_vertices_sorted_nodup :
+  forall (A : Type) (eqb ltb : A -> A -> bool),
+    (forall x y, eqb x y = true <-> x = y) -> (forall x, ltb x x = false) ->
+    (forall x y z, ltb x y = true -> ltb y z = true -> ltb x z = true) ->
+    (forall x y, eqb x y = false -> ltb x y = false -> ltb y x = true) ->
+  forall (mesh : list (tri3 A)),
+    Sorted.StronglySorted (fun a b => ltb a b = true) (mesh_vertices eqb ltb mesh) /\
+    NoDup (mesh_vertices eqb ltb mesh).
+Proof. exact (@mesh_vertices_sorted_nodup). Qed.
+Print Assumptions C13_mesh_vertices_sorted_nodup.
+
+Theorem C13_mesh_vertices_sorted_nodup_Z3 :
+  forall (mesh : list (tri3 z3)),
+    Sorted.StronglySorted (fun a b => z3_ltb a b = true) (mesh_vertices z3_eqb z3_ltb mesh) /\
+    NoDup (mesh_vertices z3_eqb z3_ltb mesh).
+Proof. exact z3_mesh_vertices_sorted_nodup. Qed.
+Print Assumptions C13_mesh_vertices_sorted_nodup_Z3.
+
 (* ---- to_TriangleCollection: one Triangle per face, each with the face's vertices, the mesh polarization and the
         mesh pose; the collection has the mesh pose.  In every rigid-motion algebra. *)
 Theorem C13_to_TriangleCollection :
@@ -107,15 +128,54 @@ Theorem C13_to_TriangleCollection :
 Proof. exact (@to_collection_spec). Qed.
 Print Assumptions C13_to_TriangleCollection.
 
-(* ---- stretch, PARTIAL: the eight-corner sums of the Cuboid closed form are additive under an axis-aligned cut,
-        for any corner function (arctan / log terms alike) and any number of consecutive slabs.  What is missing
-        for the full statement `Cuboid = sum of its slabs`: the octant flip of magnet_cuboid_Bfield (observer
-        moved to the bottQ4 octant of each part separately) and the product form of the log terms. *)
-Theorem C13_cuboid_axis_partition_partial :
+(* ---- stretch, PARTIAL: Cuboid = sum of its parts under an axis-aligned cut.
+   cuboid_ff and cuboid_contrib are TRANSLATED from magnet_cuboid_Bfield on this run (Gen/GenCuboid.v): the six
+   closed-form terms (three arctan2 sums, three log terms) and the table that assembles B from them.
+   box_B_noflip is component j of the B-field the function assembles for the Cuboid [x0,x1]x[y0,y1]x[z0,z1] seen
+   from p when NO octant flip happens (all qsigns = 1).  Proved: for EVERY function in the place of arctan2, every
+   polarization, every box, every cut position and every observer off the planes of the faces and of the cut, the
+   whole equals the sum of the two parts (cuts along x, y and z).
+   What is missing for the full statement: the octant flip (the implementation first mirrors the observer into
+   the octant x>=0, y<=0, z<=0 of EACH box separately; the theorem covers the observers for which the whole and
+   both parts need no flip, i.e. p beyond all three centres), H/J/M, and rotated poses. *)
+Theorem C13_cuboid_cut_x_partial :
+  forall (at2 : R -> R -> R) (pol : R * R * R) (j : nat) (px py pz x0 xm x1 y0 y1 z0 z1 : R),
+    px <> x0 -> px <> xm -> px <> x1 -> py <> y0 -> py <> y1 -> pz <> z0 -> pz <> z1 ->
+    box_B_noflip at2 pol j px py pz x0 x1 y0 y1 z0 z1 =
+    (box_B_noflip at2 pol j px py pz x0 xm y0 y1 z0 z1 + box_B_noflip at2 pol j px py pz xm x1 y0 y1 z0 z1)%R.
+Proof. exact box_B_noflip_cut_x. Qed.
+Print Assumptions C13_cuboid_cut_x_partial.
+
+Theorem C13_cuboid_cut_y_partial :
+  forall (at2 : R -> R -> R) (pol : R * R * R) (j : nat) (px py pz x0 x1 y0 ym y1 z0 z1 : R),
+    px <> x0 -> px <> x1 -> py <> y0 -> py <> ym -> py <> y1 -> pz <> z0 -> pz <> z1 ->
+    box_B_noflip at2 pol j px py pz x0 x1 y0 y1 z0 z1 =
+    (box_B_noflip at2 pol j px py pz x0 x1 y0 ym z0 z1 + box_B_noflip at2 pol j px py pz x0 x1 ym y1 z0 z1)%R.
+Proof. exact box_B_noflip_cut_y. Qed.
+Print Assumptions C13_cuboid_cut_y_partial.
+
+Theorem C13_cuboid_cut_z_partial :
+  forall (at2 : R -> R -> R) (pol : R * R * R) (j : nat) (px py pz x0 x1 y0 y1 z0 zm z1 : R),
+    px <> x0 -> px <> x1 -> py <> y0 -> py <> y1 -> pz <> z0 -> pz <> zm -> pz <> z1 ->
+    box_B_noflip at2 pol j px py pz x0 x1 y0 y1 z0 z1 =
+    (box_B_noflip at2 pol j px py pz x0 x1 y0 y1 z0 zm + box_B_noflip at2 pol j px py pz x0 x1 y0 y1 zm z1)%R.
+Proof. exact box_B_noflip_cut_z. Qed.
+Print Assumptions C13_cuboid_cut_z_partial.
+
+(* each translated term IS an eight-corner sum (arctan2 terms unconditionally, log terms off the face planes) *)
+Theorem C13_cuboid_terms_are_corner_sums_partial :
+  forall (at2 : R -> R -> R) (k : nat) (x y z a b c : R), (k < 6)%nat -> off_planes x y z a b c ->
+    term at2 k x y z a b c =
+    (- corner_sum (cornerF at2 k) (x - a) (x + a) (y - b) (y + b) (z - c) (z + c))%R.
+Proof. exact term_corner. Qed.
+Print Assumptions C13_cuboid_terms_are_corner_sums_partial.
+
+(* any number of consecutive slabs: the corner sums telescope *)
+Theorem C13_corner_sum_slabs_partial :
   forall (F : R -> R -> R -> R) (cuts : list R) (x0 y0 y1 z0 z1 : R),
     slab_sum F x0 cuts y0 y1 z0 z1 = corner_sum F x0 (last cuts x0) y0 y1 z0 z1.
 Proof. exact slab_sum_telescopes. Qed.
-Print Assumptions C13_cuboid_axis_partition_partial.
+Print Assumptions C13_corner_sum_slabs_partial.
 
 (* ---- non-vacuity: the hypotheses are satisfiable and the executable models run *)
 Example C13_nonvacuous :
@@ -134,5 +194,7 @@ Example C13_nonvacuous :
    mesh_vertices z3_eqb z3_ltb mesh = [(0, 0, 0); (0, 0, 1); (0, 1, 0); (1, 0, 0)]%Z /\
    mesh_faces z3_eqb z3_ltb mesh = [(0, 3, 2); (3, 2, 1)]%nat) /\
   (* an observer outside a sphere *)
-  @sphere_out RNum (1, 0, 0)%R 1%R = true.
-Proof. exact C13_nonvacuous_witness. Qed.
+  @sphere_out RNum (1, 0, 0)%R 1%R = true /\
+  (* an observer off all planes of a cut cuboid, beyond all centres (no flip) *)
+  (3 <> -1 /\ 3 <> 0 /\ 3 <> 1 /\ -2 <> -1 /\ -2 <> 1 /\ off_planes 3 (-2) (-2) 1 1 1)%R.
+Proof. exact C13_nonvacuous_witness2. Qed.
